@@ -1146,12 +1146,25 @@ fn gen_link_set(rng: &mut Rng, id: u64) -> (Vec<LinkObj>, Vec<(usize, u64, Strin
         let (value, shndx) = place(rng, &exe_segs, *typ);
         exe_exports.push(Sym { name: format!("e{}", i), value, typ: *typ, bind: *bind, shndx });
     }
+    // a third object in two of three sets: liby.so, needed by libx.so (a dependency of a dependency) or by the
+    // executable (a second direct dependency); libx.so refers to its two exports
+    let third = (id / 3) % 3;
+    let y_region: u64 = 0x1000 * rng.range(1, 8);
+    let y_segs = mk(rng, y_region, 16);
+    let mut y_dyn = Vec::new();
+    if third != 0 {
+        for (i, typ) in [2u8, 1u8].iter().enumerate() {
+            let (value, shndx) = place(rng, &y_segs, *typ);
+            y_dyn.push(Sym { name: format!("y{}", i), value, typ: *typ, bind: 1, shndx });
+        }
+    }
     // an undefined reference carries the type of its definition or none
     let mut undef = |s: &Sym| Sym { name: s.name.clone(), value: 0, typ: if rng.bool() { s.typ } else { 0 }, bind: s.bind, shndx: 0 };
     let mut exe_dyn: Vec<Sym> = lib_dyn.iter().map(&mut undef).collect();
     exe_dyn.extend(exe_exports.iter().cloned());
     let mut lib_all = lib_dyn.clone();
     lib_all.extend(exe_exports.iter().map(&mut undef));
+    lib_all.extend(y_dyn.iter().map(&mut undef));
     // tables are not sorted by kind of symbol
     for v in [&mut exe_dyn, &mut lib_all] {
         for i in (1..v.len()).rev() {
@@ -1209,7 +1222,19 @@ fn gen_link_set(rng: &mut Rng, id: u64) -> (Vec<LinkObj>, Vec<(usize, u64, Strin
         }
         assert!(32 + 4 * slot <= lib.segs[1].filesz);
     }
-    (vec![LinkObj { name: "exe".into(), img: exe }, LinkObj { name: "libx.so".into(), img: lib }], relocs)
+    let mut objs = vec![LinkObj { name: "exe".into(), img: exe }, LinkObj { name: "libx.so".into(), img: lib }];
+    if third != 0 {
+        let got = objs[0].img.mips_got.clone();
+        let liby = Image { combo, etype: 3, entry: 0, segs: y_segs, symtab: y_dyn.clone(), dynsym: y_dyn.clone(), pltrel: Vec::new(), dynrel: Vec::new(),
+                           needed: Vec::new(), dynamic: true, dyn_vaddr: y_region + 0x4000, mips_got: got, nsect: 2 };
+        if third == 1 {
+            objs[1].img.needed.push("liby.so".into());
+        } else {
+            objs[0].img.needed.push("liby.so".into());
+        }
+        objs.push(LinkObj { name: "liby.so".into(), img: liby });
+    }
+    (objs, relocs)
 }
 
 fn link_session(out: &mut Out, id: u64, dir: &str, objs: &[(String, Vec<u8>, Value)], relocs: &Value, free: &Value, rng: &mut Rng) {
